@@ -411,6 +411,12 @@ fn run_line(line: &str) -> Option<String> {
             let (all, obs) = run_queue(parse_cap(f[1]), f[2] == "1", &ops);
             Some(format!("queue {} {} {} => {}", f[1], f[2], if all.is_empty() { "-".to_string() } else { all.join(",") }, obs))
         }
+        "queue0" if f.len() == 3 => {
+            // zero-capacity (rendezvous) queue: outside the model; only "never panics / never blocks" is checked
+            let ops: Vec<String> = if f[2] == "-" { vec![] } else { f[2].split(',').map(|x| x.to_string()).collect() };
+            let (all, obs) = run_queue(Some(0), f[1] == "1", &ops);
+            Some(format!("queue0 {} {} => {}", f[1], if all.is_empty() { "-".to_string() } else { all.join(",") }, obs))
+        }
         "qstress" if f.len() == 4 => {
             let r = run_stress(parse_cap(f[1]), f[2].parse().unwrap_or(2), f[3].parse().unwrap_or(10));
             Some(format!("{} => {}", line, r))
@@ -676,6 +682,12 @@ fn main() {
     let mut rng = Rng::new(env_seed());
     let mut count = 0u64;
     backpressure(&mut out, &mut count);
+    for ops in ["e0:6130,e0:6131,k,s0,d0", "c0,e1:6130,p,e0:6131,x3,d0,d1", "d0", "e0:6130,d0,k"] {
+        if let Some(l) = run_line(&format!("queue0 1 {}", ops)) {
+            writeln!(out, "{}", l).unwrap();
+            count += 1;
+        }
+    }
     if tier == "quick" {
         exhaustive(&mut out, &[Some(1), Some(2), None], 4, &mut count);
         random_cases(&mut out, &mut rng, 1500, 60, &mut count);
